@@ -315,7 +315,7 @@ func v1Lattice(c *vf.Ctx) {
 
 // ------------------------------------------------------------------ NTLMv1 from passwords
 
-var runeAlpha = []string{"a", "Z", "0", " ", "\x00", "é", "ß", "Σ", "я", "€", "￿", "\U00010428", "\U0001F600"}
+var runeAlpha = []string{"a", "Z", "0", " ", "\x00", "é", "ß", "Σ", "я", "€", "￿", "\U00010428", "\U0001F600", "\ufffd"}
 
 func asciiPasswords() []string {
 	out := enum.Strings([]string{"a", "Z", "0", " ", "~"}, 3)
@@ -470,9 +470,9 @@ func v1Authenticate(c *vf.Ctx) {
 
 // ------------------------------------------------------------------ NTLMv2, crypto/ntlmv2
 
-var v2Users = []string{"", "user", "User", "USER", "é", "É", "Σς", "\U00010428", "ß", "ı", "user.name", "a", "100%sure", "%s%d", "alice@corp.local", "CORP\\alice", "ops/deploy", " padded ", "\ufeffbom"}
-var v2Domains = []string{"", "corp", "Corp", "CORP", "дом", "ДОМ", "a", "corp.example.com", "é", "\U00010428", "d\U0001F600m", "域", "%USERDOMAIN%", "corp\\sub", "a@b", " d "}
-var v2Passwords = []string{"", "a", "Password", "é\U0001F600", "Σ я"}
+var v2Users = []string{"", "user", "User", "USER", "é", "É", "Σς", "\U00010428", "ß", "ı", "user.name", "a", "100%sure", "%s%d", "alice@corp.local", "CORP\\alice", "ops/deploy", " padded ", "\ufeffbom", "re\ufffdplaced"}
+var v2Domains = []string{"", "corp", "Corp", "CORP", "дом", "ДОМ", "a", "corp.example.com", "é", "\U00010428", "d\U0001F600m", "域", "%USERDOMAIN%", "corp\\sub", "a@b", " d ", "\ufffd"}
+var v2Passwords = []string{"", "a", "Password", "é\U0001F600", "Σ я", "\ufffd\ufffd"}
 
 func arr8(b []byte) (o [8]byte) { copy(o[:], b); return }
 
